@@ -47,7 +47,7 @@ func init() {
 
 type earlyQueue struct {
 	typ, dequeF, bytesF, overflowF string
-	enqueue, drain               string
+	enqueue, drain                 string
 }
 
 func runC24(c *Ctx) {
